@@ -229,7 +229,23 @@ def check_group_gap(arg):
                                   inputs=dict(bottom=str(b), group=[str(m) for m in members]),
                                   cmd=("import sys; sys.path.insert(0, 'props'); import C13\n"
                                        f"fails, _ = C13.check_group_gap({arg!r})\nprint([f['what'] for f in fails][:3]); sys.exit(1 if fails else 0)\n")))
-    return fails[:3], 1
+    # bottoms that are several networks themselves (a third member / the networks of a non-contiguous wildcard between the two ends): the ends lie in
+    # the group, the middle does not; a positive answer would not be containment (R13-S13)
+    if len(subs) >= 3:
+        itop = cisco_acl.Address("object-group T", platform="ios")
+        itop.items = [cisco_acl.Address(f"{m.network_address} {m.hostmask}", platform="ios") for m in members]
+        bgrp = cisco_acl.Address("object-group B", platform="ios")
+        bgrp.items = [cisco_acl.Address(f"{m.network_address} {m.hostmask}", platform="ios") for m in (subs[0], subs[1], subs[-1])]
+        wild = ((1 << (mlen - blen)) - 1) << (32 - mlen)
+        bwild = cisco_acl.Address(f"{block.network_address} {ipaddress.IPv4Address(wild)}", platform="ios")
+        for label, bottom in (("three-member group", bgrp), (f"wildcard {bwild.line}", bwild)):
+            for name, got in (("Address.subnet_of", bottom.subnet_of(itop)), ("functions.subnet_of", cisco_acl.functions.subnet_of(top=itop, bottom=bottom))):
+                if got:
+                    fails.append(dict(key=f"bounded/{name}:group-with-gap:wrong-yes:multi-network-bottom", what=f"{label} (first and last network inside, the middle outside) against the group {[str(m) for m in members]}: {name} says True",
+                                      inputs=dict(bottom=label, group=[str(m) for m in members]),
+                                      cmd=("import sys; sys.path.insert(0, 'props'); import C13\n"
+                                           f"fails, _ = C13.check_group_gap({arg!r})\nprint([f['what'] for f in fails][:4]); sys.exit(1 if fails else 0)\n")))
+    return fails[:4], 1
 
 
 def check_group_random(seed):
@@ -389,7 +405,7 @@ def main(chk):
         for f in fails:
             viol += 1
             chk.finding(f["key"], f["what"], inputs=f["inputs"], cmd=f.get("cmd"), key=f["key"])
-    chk.add_bounded("groups whose two members sit at the ends of a block: the block, its halves and its end addresses", len(gcases), len(gcases),
+    chk.add_bounded("groups whose two members sit at the ends of a block: the block, its halves, its end addresses, and bottoms of several networks (third member, non-contiguous wildcard) whose ends lie inside and whose middle lies outside", len(gcases), len(gcases),
                     "4 bases x 6 (block, member) length pairs", viol, time.time() - t0, [list(gcases[0])], exhaustive=True)
     t0 = time.time()
     icases = [(p, kl, il, kr, ir) for p in ("ios", "nxos") for kl, kr in (("AddrGroup", "AddrGroup"), ("AddrGroup", "AddressAg"), ("AddressAg", "AddrGroup"),
